@@ -80,11 +80,27 @@ def write_replay(prop: str, o: OB.Obligation, results_by_pid: Dict[str, ProofRes
             OB.solve_all(same, nproc=1, timeout_s=30)
             failing = [x for x in same if x.verdict == "refuted"]
             stubs = PROOFS[pid].calls
-            native = {"mode": "the real function re-executed by CPython on the model's concrete inputs"
-                              + (" (callees %s replaced by contract-conforming stubs returning the model's values)" % stubs
-                                 if stubs else " (no callee replaced: a native run of the real code)"),
+            front = "c" if pid.startswith(("gen-c:", "c[")) else "go" if pid.startswith(("gen-go:", "go:")) else "py"
+            how = {"py": "the real function re-executed by CPython on the model's concrete inputs",
+                   "c": "the real C (clang AST of the working tree) re-executed by the csym interpreter on the model's concrete inputs",
+                   "go": "the real Go source re-executed by the gosym interpreter on the model's concrete inputs (no Go tool chain here)"}[front]
+            native = {"mode": how + (" (callees %s replaced by contract-conforming stubs returning the model's values)" % stubs
+                                     if stubs else " (no callee replaced)"),
                       "obligation_fails_on_concrete_run": bool(failing), "checker_error": r2.error}
             reproduced = bool(failing) and not stubs
+            nat_c = (r2.replay or {}).get("native_c") if getattr(r2, "replay", None) else None
+            if nat_c:
+                # the tool-chain replay: generated C (+ lib/c/bitproto.c) compiled with cc and run on the same inputs
+                nat_c = [x for x in nat_c if o.oid.startswith(x.get("label", "?") + "/")]
+                native["compiled_and_run_with_cc"] = nat_c
+                ran = [x for x in nat_c if x.get("ran") and "differs_from_reference" in x]
+                if ran:
+                    native["native_binary_differs_from_reference"] = any(x["differs_from_reference"] for x in ran)
+                    if not native["native_binary_differs_from_reference"]:
+                        # frame / UB obligations need not show in the bytes; a byte / field obligation that does not reproduce
+                        # natively is reported as not reproduced (the VIOLATION line then ends no-failing-input-found)
+                        if o.kind == "post":
+                            reproduced = False
     except Exception as e:
         native = {"error": repr(e)}
     doc = {
